@@ -26,6 +26,9 @@ def writeParams : List Ident → Bool → CW → CW
 /-- token head of most nodes: leading comments, mapping -/
 def CW.head (cw : CW) (tok : Token) : CW := (cw.leadingComments tok.comments).addMapping tok.sl tok.sc
 
+/-- `strings.ReplaceAll(v, "`", "\\`")` -/
+def escBackticks (v : Bytes) : Bytes := v.flatMap (fun c => if c == 96 then [92, 96] else [c])
+
 mutual
 
   def writeExpr : Expr → CW → CW
@@ -34,7 +37,7 @@ mutual
     | .int tok, cw => (cw.head tok).writeString tok.lit
     | .float tok, cw => (cw.head tok).writeString tok.lit
     | .str tok v, cw => (((cw.head tok).writeRune 34).writeString v).writeRune 34
-    | .raw tok v, cw => (((cw.head tok).writeRune 96).writeString v).writeRune 96
+    | .raw tok v, cw => (((cw.head tok).writeRune 96).writeString (escBackticks v)).writeRune 96
     | .bool tok _, cw => (cw.head tok).writeString tok.lit
     | .null tok, cw => (cw.head tok).writeString (strBytes "null")
     | .letE tok name v, cw =>
